@@ -2,6 +2,7 @@ package ring
 
 import (
 	"encoding/binary"
+	"io"
 
 	"github.com/tuneinsight/lattigo/v6/utils/sampling"
 )
@@ -55,7 +56,7 @@ func (u *UniformSampler) read(pol Poly, f func(a, b, c uint64) uint64) {
 
 	var ptr int
 	if ptr = u.ptr; ptr == 0 || ptr == byteArrayLength {
-		if _, err := prng.Read(u.randomBufferN); err != nil {
+		if _, err := io.ReadFull(prng, u.randomBufferN); err != nil {
 			// Sanity check, this error should not happen.
 			panic(err)
 		}
@@ -81,7 +82,7 @@ func (u *UniformSampler) read(pol Poly, f func(a, b, c uint64) uint64) {
 
 				// Refills the buff if it runs empty
 				if ptr == byteArrayLength {
-					if _, err := u.prng.Read(buffer); err != nil {
+					if _, err := io.ReadFull(u.prng, buffer); err != nil {
 						// Sanity check, this error should not happen.
 						panic(err)
 					}
@@ -139,7 +140,7 @@ func randInt32(prng sampling.PRNG, mask uint64) uint64 {
 
 	// generate random 4 bytes
 	randomBytes := make([]byte, 4)
-	if _, err := prng.Read(randomBytes); err != nil {
+	if _, err := io.ReadFull(prng, randomBytes); err != nil {
 		// Sanity check, this error should not happen.
 		panic(err)
 	}
@@ -156,7 +157,7 @@ func randInt64(prng sampling.PRNG, mask uint64) uint64 {
 
 	// generate random 8 bytes
 	randomBytes := make([]byte, 8)
-	if _, err := prng.Read(randomBytes); err != nil {
+	if _, err := io.ReadFull(prng, randomBytes); err != nil {
 		// Sanity check, this error should not happen.
 		panic(err)
 	}
